@@ -133,12 +133,34 @@ def _init_worker():
     sys.setrecursionlimit(10000)
 
 
+class _Cov:
+    """measurement aid (VERIF_COV=<dir>): line/branch coverage of the code under test per worker call, combined by
+    tools/coverage_report.py - tells which parts of TLExport no generated case executes; never set by the manifest"""
+
+    def __enter__(self):
+        self.cov = None
+        d = os.environ.get("VERIF_COV")
+        if d:
+            import coverage
+            import runner
+            self.cov = coverage.Coverage(data_file=os.path.join(d, ".coverage"), data_suffix=True, branch=True,
+                                         include=[os.path.join(runner.REPO, "tlexport", "*")])
+            self.cov.start()
+        return self
+
+    def __exit__(self, *a):
+        if self.cov is not None:
+            self.cov.stop()
+            self.cov.save()
+
+
 def _enum_worker(args):
     si, lo, hi = args
     st = _CTX["stages"][si]
     res = StageResult(st.name)
-    for spec in st.specs[lo:hi]:
-        res.add(spec, st.evaluate(spec))
+    with _Cov():
+        for spec in st.specs[lo:hi]:
+            res.add(spec, st.evaluate(spec))
     return res
 
 
@@ -160,7 +182,8 @@ def _gen_worker(args):
             return
         res.add(spec, st.evaluate(spec))
 
-    prop()
+    with _Cov():
+        prop()
     res.failures = [(sig, detail, spec, widx) for sig, detail, spec in res.failures]
     return res
 
